@@ -113,8 +113,25 @@ def handleCore (directed : Bool) : Handler := fun s =>
     let nComposite := (shapes.filter fun sh => match sh with | .composite _ => true | _ => false).length
     let nEmpty := (shapes.filter fun sh => match sh with | .empty => true | _ => false).length
     if err != Sexp.atom "none" then
-      -- the generator only produces acyclic, closed, in-range glyph sets: an error is a disagreement
-      some { corr := some false, oracle := none, cls := "impl-error", detail := toString err }
+      -- A work item returned Err or panicked.  The only excused cases are the overflow points that the
+      -- theorems exclude by hypothesis and that belong to property C19: the unchecked i16 subtraction
+      -- `vertical_origin - yMax` (vertical_metrics.rs:87) and the unchecked u16 additions of
+      -- update_composite_limits (metrics_and_limits.rs:260-261), each recognised from the *input*.
+      let eBoxes : List (Option Box) := ((impl.field1? "bboxes").bind (·.mapM? parseBox)).getD []
+      let vOrgE : List Int := gin.map fun g => satI16 (otRound (g.vorg.getD asc))
+      let vOverflow := vertical && ((vOrgE.zip eBoxes).any fun (o, b) => !inI16 (o - (b.map (·.yMax)).getD 0))
+      let comp := (List.range n).filter (isComposite shapes)
+      let sumOverflow := comp.any fun gid => specPoints shapes (n + 1) gid > 65535 || specContours shapes (n + 1) gid > 65535
+      let isPanic := match err with | .list (_ :: .atom "panic" :: _) => true | _ => false
+      let what := match err with | .list (.atom w :: _) => w | _ => ""
+      if isPanic && what == "vmtx" && vOverflow then
+        some { corr := none, oracle := none, tags := ["panic", "v-tsb-out-of-i16"], detail := toString err }
+      else if isPanic && what == "hmtx" && sumOverflow then
+        some { corr := none, oracle := none, tags := ["panic", "maxp-out-of-u16"], detail := toString err }
+      else if directed && isPanic then
+        some { corr := none, oracle := none, tags := ["panic"], detail := toString err }
+      else
+        some { corr := some false, oracle := none, cls := (if isPanic then "impl-panic" else "impl-error"), detail := toString err }
     else
     let iBoxes ← (← impl.field1? "bboxes").mapM? parseBox
     let iSizes ← (← impl.field1? "sizes").mapM? Sexp.asNat?
